@@ -1061,6 +1061,66 @@ fn c06_huge_steps(acc: &mut Acc) {
     }
 }
 
+/// C06 companion: timelines whose whole active part is ABSORBED by the f32 rounding of the reported total
+/// (cycle x (repeats+1) below half an ulp of the delay, so `duration() == delay()` although the animation has
+/// not run at `time == delay`). A delivery that lands exactly on the delay and one that steps over it must
+/// agree: every sequence of up to 4 steps from {0, D/4, D/2, D} against one advance of the (exact) sum, with a
+/// zero-length advance appended to each side. All steps, sums and the delay are dyadic, so equality is bitwise.
+fn c06_absorbed_cycle(acc: &mut Acc) {
+    let mut ci = 0u64;
+    for delay in [2.0f32, 0.5, 64.0] {
+        for rep in [Rep::None, Rep::Times(0), Rep::Times(1)] {
+            for reverse in [false, true] {
+                ci += 1;
+                let cycle = delay * 2f32.powi(-27);
+                let tm = Timing::new(cycle, delay, rep, reverse);
+                let spec = TlSpec { kfs: vec![kf(0.0, Some(-8.0), Some(-800), None, None), kf(0.5, Some(64.0), Some(6400), None, None), kf(1.0, Some(100.0), Some(10_000), None, None)], default_easing: 0, timing: tm };
+                let build = || StateAnimatorBuilder::<S4, PTimeline>::new().from_state(S4::X).from_values(P::default()).on(S4::X, spec.builder()).build();
+                let alphabet = [0.0f32, delay / 4.0, delay / 2.0, delay];
+                for len in 1..=4usize {
+                    for code in 0..4usize.pow(len as u32) {
+                        let steps: Vec<f32> = (0..len).map(|i| alphabet[(code / 4usize.pow(i as u32)) % 4]).collect();
+                        let sum: f32 = steps.iter().sum();
+                        let run = std::panic::catch_unwind(std::panic::AssertUnwindSafe(|| {
+                            let mut a = build();
+                            for d in &steps {
+                                a.advance(*d);
+                            }
+                            let mut b = build();
+                            b.advance(sum);
+                            let first = (observe(&a), observe(&b));
+                            a.advance(0.0);
+                            b.advance(0.0);
+                            (first, (observe(&a), observe(&b)))
+                        }));
+                        acc.histories += 2;
+                        acc.ops += len as u64 + 3;
+                        acc.checks += 2;
+                        if sum >= delay && steps.iter().filter(|d| **d > 0.0).count() > 1 {
+                            acc.nontrivial += 1;
+                        }
+                        let rank = (1u64 << 51) | ci << 16 | (len as u64) << 12 | code as u64;
+                        let Ok(((oa, ob), (za, zb))) = run else {
+                            acc.sink.add("panic-in-advance:absorbed-cycle", rank, || (format!("advance panicked on steps {steps:?} (delay {delay}, cycle {cycle:e})"), json!({"steps": steps, "timeline": spec.to_json()})));
+                            continue;
+                        };
+                        if oa.values.bits() != ob.values.bits() || oa.ended != ob.ended || oa.time != ob.time {
+                            acc.sink.add("schedule-dependence:absorbed-cycle", rank, || {
+                                (format!("steps {steps:?} give {:?} ended={}; one advance({sum:?}) gives {:?} ended={} (delay {delay}, cycle {cycle:e}, reported total {:?})", oa.values, oa.ended, ob.values, ob.ended, tm.total()), json!({"steps": steps, "timeline": spec.to_json()}))
+                            });
+                        }
+                        if za.values.bits() != oa.values.bits() || zb.values.bits() != ob.values.bits() || za.ended != oa.ended || zb.ended != ob.ended {
+                            acc.sink.add("advance-zero-not-a-noop:absorbed-cycle", rank, || {
+                                (format!("after steps {steps:?} / advance({sum:?}) a further advance(0) changes {:?} -> {:?} / {:?} -> {:?} (delay {delay}, cycle {cycle:e})", oa.values, za.values, ob.values, zb.values), json!({"steps": steps, "timeline": spec.to_json()}))
+                            });
+                        }
+                    }
+                }
+            }
+        }
+    }
+}
+
 /// C06 companion with very small steps (1 ns .. 1 us, i.e. around and below f32::EPSILON seconds): n such
 /// steps against one advance of their sum, on a timeline short enough (1.25 x the total) that the progress is
 /// most of the value range. Each step is within 1e-7 relative of a whole number of nanoseconds, so the two
@@ -1611,6 +1671,7 @@ fn companions(prop: Prop, thorough: bool, acc: &mut Acc) {
     if prop == Prop::C06 {
         c06_tiny_steps(acc);
         c06_huge_steps(acc);
+        c06_absorbed_cycle(acc);
     }
     if prop == Prop::C04 || prop == Prop::C05 {
         nondyadic_companion(prop, thorough, acc);
